@@ -307,8 +307,15 @@ CORPUS = [
 ]
 
 
+def clean_out(pid):
+    import glob, os
+    for f in glob.glob(os.path.join(core.OUT, pid, "*.json")):
+        os.remove(f)
+
+
 def run(tier, replay=None):
     chk = core.Check("C02", tier)
+    clean_out("C02")
     lres = core.lean_check(THM)
     core.proof_coverage(chk, lres, THM)
     b = core.build("asan", harness=["h_scan", "h_re"])
@@ -328,11 +335,7 @@ def run(tier, replay=None):
         metas[replay["case"].split(" ", 1)[0]] = replay.get("meta", {})
     found = False
     # ---- parser tie first: it also supplies the AST of the corpus cases (whose `re=?` is filled from the real parser)
-    astout, rc3, err3 = core.run_parallel([b["h_re"]], cases)
-    if rc3 != 0:
-        chk.violation("h_re_crash.json", {"kind": "harness crash / sanitizer report in h_re", "engine": "re", "harness": "h_re", "rc": rc3, "stderr": err3, "case": cases[0]})
-        found = True
-    amap = {l.split(" ", 1)[0]: l for l in astout}
+    amap, crash_re = rc.run_robust(core, [b["h_re"]], cases)
     fixed = []
     for c in cases:
         cid = c.split(" ", 1)[0]
@@ -343,11 +346,14 @@ def run(tier, replay=None):
             c = c.replace(" re=? ", " re=%s " % astt)
         fixed.append(c)
     cases = fixed
-    impl, rc1, err1 = core.run_parallel([b["h_scan"]], cases + mal)
-    if rc1 != 0:
-        chk.violation("h_scan_crash.json", {"kind": "harness crash / sanitizer report in h_scan", "engine": "re", "harness": "h_scan", "rc": rc1, "stderr": err1, "case": cases[0]})
-        found = True
-    imap = {l.split(" ", 1)[0]: l for l in impl}
+    imap, crash_scan = rc.run_robust(core, [b["h_scan"]], cases + mal)
+    impl = [imap[c.split(" ", 1)[0]] for c in cases if c.split(" ", 1)[0] in imap]
+    for hname, lst in (("h_scan", crash_scan), ("h_re", crash_re)):
+        for c, rcx, errx in lst[:5]:
+            cid = c.split(" ", 1)[0]
+            chk.violation("crash_%s_%s.json" % (hname, cid), {"kind": "crash / sanitizer report while compiling or scanning", "engine": "re", "harness": hname, "case": c,
+                                                              "rc": rcx, "stderr": errx[-2500:], "meta": metas.get(cid, {})})
+            found = True
     model = []
     if lres.get("driver_ok"):
         model, _, _ = core.run_parallel([core.driver_path(), "re"], cases)
